@@ -177,7 +177,7 @@ MODULE_CALL_ATTRS = {'activation', 'conv', 'convolution', 'convolution0', 'convo
                      'l2_loss', 'loss', 'loss_func', 'loss_function', 'lpips', 'maxpool_conv', 'mlp', 'model', 'msssim', 'network',
                      'outc', 'pad_b', 'pad_h0', 'pad_l', 'pad_l0', 'psnr', 'ssim', 'spatial', 'spatial_gate', 'channel_gate',
                      'transformations_1', 'transformations_2', 'up', 'sv_kernel_generation', 'cvvdp', 'fvvdp', 'blur', 'predict',
-                     'LearnedPerceptualImagePatchSimilarity', 'propagator', 'light_propagation'}
+                     'LearnedPerceptualImagePatchSimilarity', 'propagator', 'light_propagation', 'relu'}
 
 # ------------------------------------------------------------------ parameter kinds the docstrings do not give
 # function -> {parameter: (kind, justification)}
